@@ -2,7 +2,7 @@ from __future__ import annotations
 
 from typing import TYPE_CHECKING, Final, NewType
 
-from .tokenize import Token, TokenInfo
+from .tokenize import Token, TokenError, TokenInfo
 
 if TYPE_CHECKING:
     from collections.abc import Iterator
@@ -34,6 +34,13 @@ class Tokenizer:
         if verbose:
             self.report(False, False)
 
+    def _next_raw(self) -> TokenInfo:
+        """Next token of the underlying stream; running off its end is a tokenizing error."""
+        try:
+            return next(self._tokengen)
+        except StopIteration:
+            raise TokenError("unexpected EOF", self._tokens[-1].end if self._tokens else (1, 0)) from None
+
     def getnext(self) -> TokenInfo:
         """Return the next token and updates the index."""
         cached = self._index != len(self._tokens)
@@ -53,7 +60,7 @@ class Tokenizer:
             elif self._stack:
                 tok = self._stack.pop()
             else:
-                tok = next(self._tokengen)
+                tok = self._next_raw()
             if self.is_blank(tok):
                 continue
 
@@ -82,7 +89,7 @@ class Tokenizer:
         string = ""
         line = ""
         while True:
-            tok = next(self._tokengen)
+            tok = self._next_raw()
             if tok.type == Token.OP and tok.string[-1] in "([{":  # push paren level
                 paren_level.append(tok.string[-1])
             if paren_level:
